@@ -28,6 +28,13 @@ def gen(rng):
         if len(ss) >= 2 and 'frames' not in e:
             e['frames'] = [{'subcategorizationFrame': f'fr {e["id"]} X', 'senses': [ss[-1]['id']]},
                            {'subcategorizationFrame': f'fr {e["id"]} Y', 'senses': [s['id'] for s in ss]}]
+    # one word whose sense has derivation links to the senses of several other words (order of derived_words())
+    all_senses = [(e, s_) for e in a['entries'] for s_ in e.get('senses', [])]
+    if len({e['id'] for e, _ in all_senses}) >= 3:
+        src = all_senses[0][1]
+        tg = [s_['id'] for e, s_ in all_senses if e is not all_senses[0][0]]
+        rng.shuffle(tg)
+        src.setdefault('relations', []).extend({'target': t_, 'relType': 'derivation', 'meta': None} for t_ in tg)
     # graph with two lowest common hypernyms of equal depth reached by paths of different length
     # (0 and 1 share {2, 3}); extra nodes hang below the core
     edges = [[0, 2, 'hypernym'], [0, 5, 'hypernym'], [5, 3, 'hypernym'], [1, 2, 'hypernym'], [1, 3, 'instance_hypernym'],
@@ -57,6 +64,10 @@ def gen(rng):
     m = {'id': 'm', 'version': '1', 'label': 'morph', 'language': 'en', 'email': 'a@b.c', 'license': 'L', 'meta': None,
          'entries': [ent(nm, nm) for nm in names],
          'synsets': [{'id': f'm-ss-{nm}', 'ili': '', 'partOfSpeech': 'n', 'meta': None} for nm in names]}
+    # one word with derivation links to every other word of the lexicon, declared in shuffled order
+    tg_ = [f'm-{nm}-s' for nm in names[1:]]
+    rng.shuffle(tg_)
+    m['entries'][0]['senses'][0]['relations'] = [{'target': t_, 'relType': 'derivation', 'meta': None} for t_ in tg_]
     # homographs in the parts of speech Morphy has no rules for (conjunction, adposition, phrase, unknown, other)
     others = ['c', 'p', 't', 'u', 'x']
     rng.shuffle(others)
@@ -146,6 +157,9 @@ def process(ctx, scs, seeds):
                 if 'error' in r:
                     ctx.fail('battery-runs', {'seed': s, 'scenario': sc}, r)
                     continue
+                if r.get('caller_mutation_bad'):
+                    ctx.fail('an-answer-does-not-change-when-the-caller-modifies-a-list-returned-earlier', {'seed': s, 'scenario': sc},
+                             {'[word, [lemma, forms] before, after]': r['caller_mutation_bad']})
                 if r.get('one_object_bad'):
                     ctx.fail('a-reused-Wordnet-object-answers-like-a-fresh-one(earlier-read-only-queries-leave-no-trace)',
                              {'seed': s, 'scenario': sc}, {'calls [method, arguments, reused, fresh]': r['one_object_bad']})
